@@ -50,6 +50,9 @@ func runCase(cs *caseSpec) (wire []byte, calls []int, closed bool, closes []int3
 			qi = int(p[2] - '0')
 		}
 		calls = append(calls, qi)
+		if cs.StreamReq {
+			ctx.PostBody() // consume the streamed request body so that the connection can be kept
+		}
 		if qi < 0 || qi >= len(cs.Reqs) {
 			return
 		}
@@ -64,6 +67,8 @@ func runCase(cs *caseSpec) (wire []byte, calls []int, closed bool, closes []int3
 		NoDefaultServerHeader: cs.NoServer,
 		NoDefaultDate:         cs.NoDate,
 		NoDefaultContentType:  cs.NoCType,
+		ReduceMemoryUsage:     cs.ReduceMem,
+		StreamRequestBody:     cs.StreamReq,
 	}
 	func() {
 		defer func() {
@@ -80,7 +85,7 @@ func runCase(cs *caseSpec) (wire []byte, calls []int, closed bool, closes []int3
 func TestC03(t *testing.T) {
 	r := mon.Start(t, "C03")
 	defer r.Finish()
-	r.Rule("case = one connection with 2-3 pipelined requests (GET/HEAD/POST; HTTP/1.1, or 1.0 with keep-alive; delivered at once, per request, or in fixed fragments), each answered by a handler program of 1-7 ops over {SetStatusCode 200-999, SetStatusMessage, Set/Add fields, Content-Type, Server, cookies, Content-Length/Transfer-Encoding/Connection set and deleted by hand, Header.SetContentLength, SetBody/SetBodyString/AppendBody/AppendBodyString/Write/WriteString/SetBodyRaw/ResetBody, SetBodyStream(reader kinds x declared exact/short/long/-1/<=-2), SetBodyStreamWriter(chunks, flushes), SetTrailer, ImmediateHeaderFlush, SkipBody (HEAD only), SetConnectionClose}, optionally wrapped in CompressHandler; executed by Server.ServeConn over a scripted conn; distinct = feature vector (method, version, final body kind, declared-vs-produced relation, status class, hand-set framing fields, trailers, compress, flags) per request; non-trivial = some program has a stream, a hand-set framing field, a bodiless status or >= 3 ops")
+	r.Rule("case = one connection with 2-3 (a quarter: 2-6) pipelined requests (GET/HEAD/POST; HTTP/1.1, or 1.0 with keep-alive; delivered in ONE read, per request, or in fixed fragments; a fifth of the connections end with a truncated follower request - chunked with 0-3 chunks, short fixed-length body, head cut mid-line, Expect: 100-continue without body - and the peer's EOF) served with Server.ReduceMemoryUsage on/off x StreamRequestBody on/off x NoDefault* options, each answered by a handler program of 1-7 ops over {SetStatusCode 200-999, SetStatusMessage, Set/Add fields, Content-Type, Server, cookies, Content-Length/Transfer-Encoding/Connection set and deleted by hand, Header.SetContentLength, SetBody/SetBodyString/AppendBody/AppendBodyString/Write/WriteString/SetBodyRaw/ResetBody, SetBodyStream(reader kinds x declared exact/short/long/-1/<=-2), SetBodyStreamWriter(chunks, flushes), SetTrailer, ImmediateHeaderFlush, SkipBody (HEAD only), SetConnectionClose}, optionally wrapped in CompressHandler; executed by Server.ServeConn over a scripted conn; distinct = feature vector (method, version, final body kind, declared-vs-produced relation, status class, hand-set framing fields, trailers, compress, flags) per request plus server configuration and pipeline depth; non-trivial = some program has a stream, a hand-set framing field, a bodiless status or >= 3 ops")
 	r.Assume("reference parsers (verif/internal/h1 written from RFC 9112, and net/http.ReadResponse) decide framing; the API model is written from the doc comments: last body op wins, append extends what a client would have received, a stream sends its bytes with the declared size")
 	r.Assume("not judged (counted as skipped_*): body content after AppendBody on top of a stream (stream cannot be extended without reading it; either the stream+append or the append alone is accepted); fields named in SetTrailer when the response is not chunked; which of hand-set Content-Length and the stream's declared size wins (only framing is judged: complete response with the full body, or a prefix no longer than the announced length followed by close); value of Content-Length on HEAD/204/304 responses; Transfer-Encoding: chunked sent to HTTP/1.0 clients (counted)")
 	r.Assume("SkipBody is generated only for HEAD requests (documented use); Set after Add on the same name and Del are not generated (header container semantics belong to C29); header injection belongs to C05; timeouts to C16")
